@@ -1404,13 +1404,14 @@ class ThirdCoreHexToFullCoreChanger(GeometryChanger):
                 self.EXPECTED_INPUT_SYMMETRY
             )
 
-            # change the central assembly params back to 1/3
+            # change the central assembly params back to 1/3 (a core may have no central assembly)
             a = r.core.getAssemblyWithStringLocation("001-001")
-            runLog.extra(
-                f"Modifying parameters in central assembly {a} to revert from full to 1/3 core"
-            )
-            for b in a:
-                self._scaleBlockVolIntegratedParams(b, "down")
+            if a is not None:
+                runLog.extra(
+                    f"Modifying parameters in central assembly {a} to revert from full to 1/3 core"
+                )
+                for b in a:
+                    self._scaleBlockVolIntegratedParams(b, "down")
         self.reset()
 
 
